@@ -103,6 +103,16 @@ class UpdateModel(ClassModel):
             return [good, I.alloc('UpdVal', {'is_mapping': False})]
         return [good]
 
+    def m_get(self, I, u, key, default=None):
+        '''update.get(task.name, {}): the value the update holds for the task's own entry (a dictionary for MAPPING,
+        something else for CORRUPTING)'''
+        kind, U = self._kind(I, u)
+        if I.path.cond(kind.t == U['BAD'].t):
+            I.raise_('AttributeError')
+        if I.path.cond(kind.t == U['CORRUPTING'].t):
+            return I.alloc('UpdVal', {'is_mapping': False})
+        return I.alloc('UpdVal', {'is_mapping': True})
+
     def m_items(self, I, u):
         kind, U = self._kind(I, u)
         if I.path.cond(kind.t == U['BAD'].t):
@@ -560,3 +570,62 @@ def master_trace_check(I, scope=None, ordinal=None):
         if e[0] in ('queue-join', 'thread-join'):
             p.oblige(f'{L}::post::C03-no-blocking-join-while-holding-cond_var', e[1] == 0, kind='post',
                      meta={'expr': 'queue.join()/thread.join() are not called while holding cond_var (workers need it to notify)'})
+
+
+# ---------------------------------------------------------------------------------------
+# Scheduler.schedule: always hands the (complete) graphs and the environment to the backend, exactly once
+SCHF = 'valjean/cosette/scheduler.py'
+
+
+class Backend(ClassModel):
+    name = 'Backend'
+    fields = {}
+
+    def m_execute_tasks(self, I, b, *, full_graph, hard_graph, env, config):
+        ev(I, 'execute_tasks', full_graph, hard_graph, env, config)
+        return None
+
+
+class SchedulerModel(ClassModel):
+    name = 'Scheduler'
+    fields = {'full_graph': 'Obj:DepGraph', 'hard_graph': 'Obj:DepGraph', 'backend': 'Obj:Backend'}
+
+
+def make_schedule_world():
+    w = sw.make_world()
+    w.class_models['Backend'] = Backend(w)
+    w.class_models['Scheduler'] = SchedulerModel(w)
+    w.globals['Config'] = SClass('Config')
+    w.globals['Env'] = SClass('Env')
+    w.construct_hooks['Config'] = lambda I, args, kwargs: I.alloc('Config', {})
+    w.construct_hooks['Env'] = lambda I, args, kwargs: w.class_models['Env'].fresh(I, 'new_env')
+    return w
+
+
+def schedule_contract(env_given):
+    return Contract(SCHF, 'Scheduler.schedule', params={'self': 'Obj:Scheduler', 'config': 'None', 'env': 'Obj:Env' if env_given else 'None'},
+                    signals={}, variant='env-given' if env_given else 'env-omitted')
+
+
+def schedule_setup(I, scope):
+    I.trace = []
+
+
+def schedule_check(I, scope, outcome):
+    p = I.path
+    variant = 'env-given' if isinstance(I.entry_scope.lookup('env'), SObj) else 'env-omitted'
+    L = f'{SCHF}::Scheduler.schedule[{variant}]'
+    calls = [e for e in I.trace if e[0] == 'execute_tasks']
+    if outcome[0] != 'return':
+        return
+    p.oblige(f'{L}::post::C04-backend-runs-exactly-once', len(calls) == 1, kind='post',
+             meta={'expr': 'schedule() calls backend.execute_tasks exactly once on every path (no shortcut around the out-of-date analysis)'})
+    if len(calls) != 1:
+        return
+    me = scope.lookup('self')
+    _, fg, hg, env, cfg = calls[0]
+    p.oblige(f'{L}::post::C01-full-and-hard-graph-handed-over', fg is I.getfield(me, 'full_graph') and hg is I.getfield(me, 'hard_graph'), kind='post',
+             meta={'expr': 'execute_tasks(full_graph=self.full_graph, hard_graph=self.hard_graph, ...)'})
+    given = I.entry_scope.lookup('env')
+    p.oblige(f'{L}::post::C04-environment-handed-over-and-returned', (env is given if isinstance(given, SObj) else isinstance(env, SObj)) and outcome[1] is env,
+             kind='post', meta={'expr': 'the environment given by the caller (or a new one) goes to the backend and is returned'})
